@@ -53,8 +53,7 @@ pub fn from_repr_inner(ast: &DeriveInput) -> syn::Result<TokenStream> {
         // constant is always defined; they just don't get a match arm.
         let disabled = variant.get_variant_properties()?.disabled.is_some();
 
-        let const_var_str = format!("{}_DISCRIMINANT", variant.ident);
-        let const_var_ident = format_ident!("{}", const_var_str);
+        let const_var_ident = format_ident!("{}_DISCRIMINANT", variant.ident);
 
         let const_val_expr = match &variant.discriminant {
             Some((_, expr)) => quote! { #expr },
